@@ -41,6 +41,7 @@ type oRS struct {
 	pos   int64
 	orc   []int
 	zeof  bool
+	eofd  bool // the read that reaches the end of the data returns its bytes TOGETHER with io.EOF (allowed by io.Reader)
 	reads int
 	zero  int // number of zero-length reads
 	zrun  int // consecutive zero-length reads
@@ -84,6 +85,9 @@ func (r *oRS) Read(p []byte) (int, error) {
 	}
 	copy(p, r.data[r.pos:r.pos+k])
 	r.pos += k
+	if r.eofd && r.pos == int64(len(r.data)) {
+		return int(k), io.EOF
+	}
 	return int(k), nil
 }
 
@@ -121,10 +125,16 @@ func (r *oRS) Seek(off int64, whence int) (int64, error) {
 	return abs, nil
 }
 
+// searchEOFWithData: in the search (not in the correspondence, whose model fixes the reader's behaviour) every second
+// reader returns its last bytes together with io.EOF.
+var searchEOFWithData bool
+var rsCount int
+
 func newRS(data []byte, pos int64, orc []int, zeof bool) *oRS {
 	o := make([]int, len(orc))
 	copy(o, orc)
-	return &oRS{data: data, pos: pos, orc: o, zeof: zeof}
+	rsCount++
+	return &oRS{data: data, pos: pos, orc: o, zeof: zeof, eofd: searchEOFWithData && (rsCount/2)%2 == 1}
 }
 
 // sink is a plain io.Writer (no ReaderFrom, so io.Copy uses its own buffer).
@@ -450,6 +460,7 @@ func fail(site, class, witness, desc string) {
 var repoDir = new(string)
 
 func search(seed uint64, n, exh int) {
+	searchEOFWithData = true
 	inSearch = true
 	rng := hx.NewRng(seed ^ 0xC08)
 	for i := 0; i < n; i++ {
